@@ -23,7 +23,7 @@ _SEQ = ("seeded random registration sequences built through the public Dispatche
         "ordering/overlap findings are confirmed by a real dispatch_par in which the two systems wait for each other")
 _WORLD = ("seeded random histories on a real World: <= 12 operations (insert / remove / entry / get_mut / has_value, typed and by id, with mismatching "
           "type arguments) over 3 resource types x dynamic ids {0,1,7} with drop counters; borrow phases of <= 7 steps with live guards, clones, writes "
-          "through exclusive guards, Option system data, presence queries under live guards")
+          "through exclusive guards, Option system data, presence queries under live guards, typed fetches issued by a destructor while a panic unwinds")
 _META = ("seeded random histories on a real MetaTable<dyn Probe>: <= 15 operations (register with repeats / insert / remove) over 6 (a third of the histories: 12, <= 36 operations) types of different size, "
          "get / get_mut / iter / iter_mut checked after every step, also under live shared / exclusive guards and held items, address-changing CastFrom impls")
 BOUNDS = {
@@ -32,7 +32,7 @@ BOUNDS = {
     "C08": _WORLD + "; every third case: " + _META,
     "C09": _WORLD,
     "C15": "seeded call sequences (<= 8 of dispatch / running / wait / wait_without_tl / world / world_mut) on a real AsyncDispatcher over plans of <= 5 registrations; "
-           "systems stay inside run until a gate opens (<= 40 ms)",
+           "systems stay inside run until a gate opens (<= 40 ms); a thread-local system may be armed to panic inside one wait(), which the caller catches before going on",
     "C16": "seeded random Par/Seq trees (depth <= 5, fan-out <= 4, 6 resource ids, zero-sized leaves) built through the real Par::new/with and Seq::new/with, "
            "dispatched three times by a real ParSeq (once from inside the pool)",
     "C17": _META,
